@@ -8,7 +8,7 @@ from . import c02
 
 PROP = "C10"
 PROPS_FILE = "theories/Props/C10.v"
-THEOREMS = ["c10_jacobian", "c10_defect_characterised", "c10_model_entry"]
+THEOREMS = ["c10_jacobian", "c10_defect_characterised", "c10_model_entry", "c10_formal_derivative"]
 GEN_FILES = []
 TRUSTED = ["Coq 8.16.1 kernel + vm_compute", "theorems closed under the global context; stated for any commutative ring with derivations (ring_theory + additivity + Leibniz hypotheses)",
            "correspondence harness (harness/c10.py): SystemOfShapes.get_jacobian_matrix of the full system and of the numeric sub-system evaluated exactly at rational points vs Model/Jacobian.jac_row (A_ij + formal derivative of c_i), decided in Coq",
